@@ -10,5 +10,5 @@ CONSTANTS
   Bug_WakeOnlyOldest = FALSE
   WithListeners = FALSE
 VIEW MCView
-INVARIANTS HistoryBounded HistoryEndsWithContent HistoryIdsIncrease
+INVARIANTS HistoryBounded HistoryEndsWithContent HistoryIdsIncrease ListedIffCommitted
 CHECK_DEADLOCK FALSE
